@@ -186,19 +186,21 @@ def check_pivot_choice(ctx, res, rule: str) -> int:
     except AnalysisError:
         res.note("the solver has no find_pivot_row; pivot choice not evaluated")
         return 0
-    loops = [n for n in ast.walk(fi.node) if isinstance(n, ast.For)]
+    mat = fi.params[0] if fi.params else None
     rows = set()
-    for lp in loops:
-        t = lp.target
-        if isinstance(t, ast.Tuple) and len(t.elts) == 2 and isinstance(t.elts[1], ast.Name) and txt(lp.iter).startswith("enumerate("):
-            rows.add(t.elts[1].id)
-        elif isinstance(t, ast.Name) and txt(lp.iter) == fi.params[0]:
-            rows.add(t.id)
-    if not rows:
-        raise AnalysisError("%s: no loop over the rows in find_pivot_row" % fi.where())
-    subs = [n for n in ast.walk(fi.node) if isinstance(n, ast.Subscript) and isinstance(n.value, ast.Name) and n.value.id in rows]
+    for lp in ast.walk(fi.node):
+        if isinstance(lp, (ast.For, ast.comprehension)):
+            t = lp.target
+            if isinstance(t, ast.Tuple) and len(t.elts) == 2 and isinstance(t.elts[1], ast.Name) and txt(lp.iter) == "enumerate(%s)" % mat:
+                rows.add(t.elts[1].id)
+            elif isinstance(t, ast.Name) and txt(lp.iter) == mat:
+                rows.add(t.id)
+    subs = [n for n in ast.walk(fi.node) if isinstance(n, ast.Subscript) and (
+        (isinstance(n.value, ast.Name) and n.value.id in rows) or
+        (isinstance(n.value, ast.Subscript) and isinstance(n.value.value, ast.Name) and n.value.value.id == mat))]
     if not subs:
-        raise AnalysisError("%s: find_pivot_row does not read any element of a row" % fi.where())
+        res.note("find_pivot_row reads no row element in a recognised form; pivot choice not evaluated")
+        return 0
     n = 0
     for sb in subs:
         k = const_num(sb.slice)
